@@ -636,9 +636,63 @@ func genExhaustive(r *rand.Rand) []string {
 	return ops
 }
 
+// genLarge: records around and beyond the 4096-byte buffer of the bufio.Reader that Read/ReadAll wrap the data
+// file in (a record of more than 4092 stored bytes does not fit one buffer fill after its 4-byte length), and
+// files whose records cross 4 KiB boundaries, read back one by one and with ReadAll, in both compression modes.
+func genLarge(r *rand.Rand, thorough bool) []string {
+	klen := 1 + r.Intn(4)
+	comp := r.Intn(2) == 0
+	ops := []string{fmt.Sprintf("new %d %d", klen, b2i(comp))}
+	sizes := []int{4088, 4091, 4092, 4093, 4095, 4096, 4097, 8191, 8192, 8193, 12289}
+	n := 1 + r.Intn(4)
+	var keys [][]byte
+	seen := map[string]bool{}
+	for j := 0; j < n; j++ {
+		k := randKey(r, klen)
+		if seen[string(k)] {
+			continue
+		}
+		seen[string(k)] = true
+		keys = append(keys, k)
+		sz := sizes[r.Intn(len(sizes))]
+		switch x := r.Intn(10); {
+		case x < 4:
+			sz = 900 + r.Intn(2500) // several of these cross the 4 KiB boundaries of the file
+		case x == 4 && (thorough || r.Intn(3) == 0):
+			sz = 70000
+		}
+		c := make([]byte, sz)
+		if comp && r.Intn(3) == 0 { // compressible: the stored record is small although the content is large
+			for q := range c {
+				c[q] = byte('a' + r.Intn(3))
+			}
+		} else {
+			r.Read(c)
+		}
+		st := c
+		if comp {
+			st, _ = zstd.Compress(c)
+		}
+		ops = append(ops, fmt.Sprintf("write %s %s %s", hx(k), hx(c), hx(st)))
+	}
+	ops = append(ops, "save", "open", "readall", "close")
+	if r.Intn(2) == 0 {
+		ops = append(ops, "openmap")
+	} else {
+		ops = append(ops, "open")
+	}
+	for _, k := range keys {
+		ops = append(ops, "read "+hx(k))
+	}
+	return ops
+}
+
 func gen(r *rand.Rand, thorough bool, i int) []string {
 	if i%8 == 7 {
 		return genStore(r, thorough)
+	}
+	if i%10 == 1 {
+		return genLarge(r, thorough)
 	}
 	if i%25 == 3 {
 		return genExhaustive(r)
@@ -998,7 +1052,20 @@ func main() {
 	})
 }
 
+func bigHex(n int, b byte) string { return strings.Repeat(fmt.Sprintf("%02x", b), n) }
+
 func fixedCases() [][]string {
+	big := func(n int) string { return bigHex(n, 0x61) }
+	return append(fixedSmall(), [][]string{
+		// the largest record that fits one 4096-byte buffer fill after its length prefix, and the first that does not
+		{"new 1 0", "write 05 " + big(4092) + " " + big(4092), "write 06 " + big(4093) + " " + big(4093), "save", "open", "readall", "read 05", "read 06"},
+		// three records of 1500 bytes: the third crosses the first 4 KiB boundary of the file
+		{"new 1 0", "write 01 " + big(1500) + " " + big(1500), "write 02 " + big(1500) + " " + big(1500), "write 03 " + big(1500) + " " + big(1500), "save", "open", "readall", "read 03", "read 01"},
+		{"new 2 0", "write 0001 " + big(70000) + " " + big(70000), "save", "open", "read 0001"},
+	}...)
+}
+
+func fixedSmall() [][]string {
 	return [][]string{
 		// the minimal witness of the non-terminating lookup: one stored key, another key looked up
 		{"new 1 0", "write 05 aa aa", "save", "open", "read 07"},
